@@ -141,9 +141,12 @@ def expected_status(r):
     return r['status']
 
 
-def R(method='GET', proto='1.1', conn=None, status=200, how='ret', body=None, stream=False, cl=False, hdrs=()):
-    return {'method': method, 'proto': proto, 'conn': conn, 'status': status, 'how': how, 'body': body,
-            'stream': stream, 'cl': cl, 'hdrs': [list(h) for h in hdrs]}
+def R(method='GET', proto='1.1', conn=None, status=200, how='ret', body=None, stream=False, cl=False, hdrs=(), stale_cl=None):
+    r = {'method': method, 'proto': proto, 'conn': conn, 'status': status, 'how': how, 'body': body,
+         'stream': stream, 'cl': cl, 'hdrs': [list(h) for h in hdrs]}
+    if stale_cl is not None:
+        r['stale_cl'] = stale_cl
+    return r
 
 
 def B(kind, v=None, items=None, real=False, short=None):
@@ -261,6 +264,9 @@ def make_handler(world, case, idx, r):
             res.stream = True
         if r.get('cl'):
             res.headers['Content-Length'] = str(exp_len)
+        if r.get('stale_cl') is not None:
+            # the application announces the length of the payload it is ABOUT to send - and then the request ends in an error page instead
+            res.headers['Content-Length'] = str(r['stale_cl'])
 
     def produce():
         if kind in ('str', 'bytes'):
@@ -985,6 +991,10 @@ def product_cases():
                         add(method=method, proto=proto, conn=conn, status=status, how='set', body=B('push', items=['ab', b'cd\xff', 'hé']))
                     add(method=method, proto=proto, conn=conn, status=status, how='set', body=B('push', items=[]))
                 add(method=method, proto=proto, conn=conn, status=404, how='notfound')
+                for stale in (5, 100000):
+                    add(method=method, proto=proto, conn=conn, status=404, how='notfound', stale_cl=stale)
+                    add(method=method, proto=proto, conn=conn, status=500, how='raise', stale_cl=stale)
+                    add(method=method, proto=proto, conn=conn, status=500, how='httperror', stale_cl=stale)
                 add(method=method, proto=proto, conn=conn, status=500, how='raise')
                 add(method=method, proto=proto, conn=conn, status=500, how='raise-request')
                 for status in (204, 304, 404, 500):
@@ -1048,6 +1058,9 @@ def corpus():
     add('F-push-10', R(proto='1.0', body=B('push', items=['ab', b'cd']), how='set'))
     add('F-stream-sized', R(body=B('str', 'abc'), stream=True))
     add('F-raise', R(status=500, how='raise'))
+    add('F-stale-cl-raise', R(status=500, how='raise', stale_cl=100000), R(body=S))
+    add('F-stale-cl-notfound', R(status=404, how='notfound', stale_cl=5), R(body=S))
+    add('F-stale-cl-httperror-10', R(proto='1.0', conn='keep-alive', status=500, how='httperror', stale_cl=7), R(proto='1.0', body=S))
     add('F-raise-request-level', R(status=500, how='raise-request'))
     add('F-head-204-body-close', R(method='HEAD', conn='close', status=204, body=B('str', 'x')))
     add('F-head-then-204-body', R(method='HEAD', body=S), R(status=204, body=B('str', 'x')), R(body=S))
